@@ -96,12 +96,31 @@ class Operator(abc.ABC):
     def __call__(self, sm, *, inplace=False):
         """apply operator"""
 
+        # partial derivatives carried by the state matrix
+        partials = [getattr(sm, "order1", {}), getattr(sm, "order2", {})]
+
         # check and resize state matrix
         sm = self.prepare(sm, inplace=inplace)
 
         # apply
         sm = self._apply(sm)
+
+        # apply operator to the partial derivatives
+        # ((v1, v2) and (v2, v1) share the same state matrix)
+        for i, order in enumerate(partials):
+            done = {}
+            for part in order.values():
+                if id(part) not in done:
+                    part_ = self.prepare(part, inplace=inplace)
+                    done[id(part)] = self._apply_partial(part_)
+            partials[i] = {key: done[id(part)] for key, part in order.items()}
+        if any(partials):
+            sm.order1, sm.order2 = partials
         return sm
+
+    def _apply_partial(self, sm):
+        """apply operator to a partial derivative (its equilibrium is zero)"""
+        return self._apply(sm)
 
     def copy(self, name=None, duration=None):
         """return copy of self"""
@@ -157,6 +176,11 @@ class MultiOperator(Operator):
         for op in self.operators:
             # skip checks
             sm = op._apply(sm)
+        return sm
+
+    def _apply_partial(self, sm):
+        for op in self.operators:
+            sm = op._apply_partial(sm)
         return sm
 
     @property
@@ -343,6 +367,12 @@ class PD(Operator):
         if not getattr(states.flags, "writeable", True):
             # a batched density added axes: store the states with the full shape (operators write in place)
             sm.arrays.set("states", states)
+        return sm
+
+    def _apply_partial(self, sm):
+        # the proton density does not depend on any variable
+        if self.reset:
+            sm.states = 0 * sm.states
         return sm
 
 
